@@ -6,6 +6,7 @@ import (
 	"errors"
 	"fmt"
 	"strconv"
+	"strings"
 	"testing"
 
 	"go.lstv.dev/util/date"
@@ -419,6 +420,26 @@ func TestCheck(t *testing.T) {
 				for _, rule := range rules {
 					judge(Case{Text: vkit.B(text), Rule: rule, Limit: 10}, w)
 					w.EvalRandom(vkit.Hash64("F", text, strconv.Itoa(rule)), true)
+				}
+			}
+		})
+	})
+
+	// Phase L: lengths that alias a valid length modulo 2^8 or 2^16: a valid text followed (or preceded) by k x 256 more bytes.
+	r.Phase("L: valid texts followed or preceded by 1..2^20 further bytes (255, 256, 257, ..., 65536, ...), limit disabled", func() {
+		defer setLimit(0)()
+		r.Parallel(int64(len([]int{1, 255, 256, 257, 511, 512, 513, 65535, 65536, 65537, 1 << 20})), 1, func(w *vkit.W, lo, hi int64) {
+			for i := lo; i < hi; i++ {
+				n := []int{1, 255, 256, 257, 511, 512, 513, 65535, 65536, 65537, 1 << 20}[i]
+				for _, base := range []string{"2024-02-29", "20240229", "12345-01-01"} {
+					for _, pad := range []string{"0", "-", " ", "\x00", "9"} {
+						for _, text := range []string{base + strings.Repeat(pad, n), strings.Repeat(pad, n) + base} {
+							for _, rule := range rules {
+								judge(Case{Text: vkit.B(text), Rule: rule, Limit: 0}, w)
+								w.EvalRandom(vkit.Hash64("L", base, pad, strconv.Itoa(n), strconv.Itoa(rule)), true)
+							}
+						}
+					}
 				}
 			}
 		})
